@@ -97,8 +97,16 @@ class TruncAnalysis:
                         if s is cur:
                             break
                         if isinstance(s, ast.If) and any(isinstance(x, ast.Raise) for x in s.body):
-                            t = u(s.test)
-                            if all((f"({p} >= lens).any()" in t) or (f"({p} > lens).any()" in t) for p in srcs):
+                            # every source P is bounded by a raising test `(P >= L).any()` / `(P > L).any()`
+                            from sa.astutil import oriented
+                            bounded = set()
+                            for c in ast.walk(s.test):
+                                if isinstance(c, ast.Call) and isinstance(c.func, ast.Attribute) and c.func.attr == "any":
+                                    for p in srcs:
+                                        o = oriented(c.func.value, lambda e, p=p: isinstance(e, ast.Name) and e.id == p)
+                                        if o and o[0] in ("ge", "gt"):
+                                            bounded.add(p)
+                            if srcs <= bounded:
                                 return True
             cur = par
         return False
